@@ -196,6 +196,14 @@ fn multi_build_case(cx: &mut Cx, rng: &mut Rng) {
     }
 }
 
+/// two of the default delimiters share a character somewhere in the text (`}}}`, `{{%`, …): re-spelling it delimiter by
+/// delimiter would not give the same program
+fn overlapping_delimiters(s: &str) -> bool {
+    let b = s.as_bytes();
+    let is = |i: usize| i + 1 < b.len() && matches!(&b[i..i + 2], b"{%" | b"%}" | b"{{" | b"}}" | b"{#" | b"#}");
+    (0..b.len()).any(|i| is(i) && is(i + 1))
+}
+
 pub fn run(cx: &mut Cx) {
     let total = cx.total(200_000, 5_000_000);
     for case in cx.my_cases(total) {
@@ -318,6 +326,50 @@ pub fn run(cx: &mut Cx) {
             }
             cx.count("faults_reached_from_one_off_strings", 1);
         }
+        // the same set spelled with custom delimiters — single two-byte characters among them, so that columns (counted in
+        // characters) and byte offsets part ways right at a delimiter. Only for well-formed sources (render and build
+        // faults) in which no two default delimiters overlap, so that the re-spelling is the same program.
+        // (a delimiter is exactly two bytes long: two ASCII characters or one two-byte character)
+        const SETS: [[&str; 6]; 3] = [["{%", "%}", "«", "»", "{#", "#}"], ["¿", "¡", "«", "»", "§", "¶"], ["±", "÷", "{{", "}}", "¶", "µ"]];
+        let custom: Option<[&str; 6]> = if (class == "render" || class == "build") && case % 4 == 1 && !tpls.iter().any(|(_, s)| overlapping_delimiters(s) || SETS.iter().flatten().any(|d| !d.is_ascii() && s.contains(d))) {
+            Some(SETS[rng.below(SETS.len())])
+        } else {
+            None
+        };
+        let respell = |s: &str| -> String {
+            match custom {
+                None => s.to_string(),
+                Some(d) => {
+                    // one pass, so that a replacement is never re-read as a delimiter
+                    let mut out = String::with_capacity(s.len());
+                    let mut i = 0;
+                    while i < s.len() {
+                        let rest = &s[i..];
+                        if let Some(k) = ["{%", "%}", "{{", "}}", "{#", "#}"].iter().position(|x| rest.starts_with(x)) {
+                            out.push_str(d[k]);
+                            i += 2;
+                        } else {
+                            let c = rest.chars().next().unwrap();
+                            out.push(c);
+                            i += c.len_utf8();
+                        }
+                    }
+                    out
+                }
+            }
+        };
+        let (fault, off, entry_src) = if custom.is_some() {
+            let fsrc = tpls.iter().find(|(n, _)| n == faulty_name).unwrap().1.clone();
+            let off2 = respell(&fsrc[..off]).len();
+            for t in tpls.iter_mut() {
+                t.1 = respell(&t.1);
+            }
+            cx.count("faults_under_custom_delimiters", 1);
+            (respell(&fault), off2, respell(&entry_src))
+        } else {
+            (fault, off, entry_src)
+        };
+        let (d_bs, d_be, d_vs, d_ve) = match custom { Some(d) => (d[0], d[1], d[2], d[3]), None => ("{%", "%}", "{{", "}}") };
         let src = tpls.iter().find(|(n, _)| n == faulty_name).unwrap().1.clone();
         let mut ctx = Context::new();
         ctx.insert("good", &std::collections::BTreeMap::from([("b", 5)]));
@@ -332,6 +384,9 @@ pub fn run(cx: &mut Cx) {
         let replay = json!({"templates": tpls, "faulty_template": faulty_name, "fault": fault, "fault_offset": off, "placement": placement, "class": class});
         let res = guard(|| {
             let mut t = Tera::default();
+            if let Some(d) = custom {
+                t.set_delimiters(tera::Delimiters { block_start: d[0].into(), block_end: d[1].into(), variable_start: d[2].into(), variable_end: d[3].into(), comment_start: d[4].into(), comment_end: d[5].into() }).expect("C12 delimiter set");
+            }
             match t.add_raw_templates(tpls.iter().filter(|(n, _)| n != "__tera_one_off").cloned().collect::<Vec<_>>()) {
                 Err(e) => Err(e),
                 Ok(()) if one_off => t.render_str(&entry_src, &ctx, true).map(|_| ()),
@@ -393,8 +448,12 @@ pub fn run(cx: &mut Cx) {
                                         } else if let Some((_, csrc)) = tpls.iter().find(|(n, _)| n == c) {
                                             // the note's line:column must designate a position inside the call construct
                                             cx.count("call_site_positions_checked", 1);
-                                            let (from, to) = match csrc.find("{% include").or_else(|| csrc.find("{{ <faulty")) {
-                                                Some(a) => (a, a + csrc[a..].find(if csrc[a..].starts_with("{%") { "%}" } else { "}}" }).map(|x| x + 2).unwrap_or(csrc.len() - a)),
+                                            let (inc_open, call_open) = (format!("{d_bs} include"), format!("{d_vs} <faulty"));
+                                            let (from, to) = match csrc.find(&inc_open).or_else(|| csrc.find(&call_open)) {
+                                                Some(a) => {
+                                                    let close = if csrc[a..].starts_with(&inc_open) { d_be } else { d_ve };
+                                                    (a, a + csrc[a..].find(close).map(|x| x + close.len()).unwrap_or(csrc.len() - a))
+                                                }
                                                 None => (0, csrc.len()),
                                             };
                                             let mut nums = line.rsplit(':').take(2).map(|x| x.trim().parse::<usize>());
